@@ -209,8 +209,8 @@ func condsAnd(cs []Cond) string {
 // EffectSig describes how one callee contributes to an inverse comparison.
 type EffectSig struct {
 	Spec    string
-	Kind    string // normalised kind shared by an effect and its inverse
-	KeyArgs []int  // argument indices forming the identity of the effect
+	Kind    string         // normalised kind shared by an effect and its inverse
+	KeyArgs []int          // argument indices forming the identity of the effect
 	Const   map[int]string // argument index -> required constant canon (e.g. direction flag)
 }
 
